@@ -30,7 +30,9 @@ exists afterwards.
 
 Quick runs everything on the ASan+UBSan build.  Thorough runs the larger space on the release
 build (signals, aborts, hangs, status rule) and the sanitizer build on the quick space plus every
-larger-space input whose release run printed a scanner warning or an in-macro-expansion error.
+larger-space input whose release run printed one of the hand-written scanners' diagnostics
+(unclosed string, unterminated comment, macro argument count, missing terminating quote, invalid #if
+expression, digit separator, literal suffix, missing ')') or an error inside a macro expansion.
 """
 import os
 import re
@@ -40,7 +42,7 @@ import time
 from vf import build, tools
 from vf import lib_c15gen as G
 from vf.lib_c15run import (Runner, N_ASAN, N_UBSAN, N_TERMINATE, N_ERROR, N_ASSERT, N_LSAN, N_WARN,
-                           N_PUREV, N_UBSUM, N_EXPANDED, tool_env)
+                           N_PUREV, N_UBSUM, N_SCANNER, tool_env)
 from vf.core import Check, HarnessError, pmap, run_main
 
 PID = "C15"
@@ -112,10 +114,18 @@ _ARITH = re.compile(r"runtime error: (signed integer overflow|shift exponent|lef
 
 
 def arith_ub_only(res):
+    """True if the sanitizer run stopped at a report that does not decide the property: integer /
+    float arithmetic, or a vptr check made when UBSan could not read the object's memory (it needs
+    a pipe for that and the tool had used up every file descriptor -- a file including itself)."""
     if not (res.mask & N_UBSAN) or (res.mask & (N_ASAN | N_TERMINATE | N_ASSERT | N_PUREV)) or res.sig:
         return False
-    lines = [l for l in (res.err or "").splitlines() if "runtime error:" in l]
-    return bool(lines) and all(_ARITH.search(l) for l in lines)
+    e = res.err or ""
+    lines = [l for l in e.splitlines() if "runtime error:" in l]
+    unreadable = "<memory cannot be printed>" in e
+
+    def undecided(l):
+        return bool(_ARITH.search(l)) or (unreadable and "does not point to an object of type" in l)
+    return bool(lines) and all(undecided(l) for l in lines)
 
 
 def _fn(frame):
@@ -196,6 +206,7 @@ class Explorer:
         self.us_max = (0.0, "")
         self.n_timeouts = 0
         self.n_retimed = 0
+        self.confirmed_hangs = 0
         self.brel = None
 
     def run_mode(self, b, inputs, mode, keep=0):
@@ -215,11 +226,16 @@ class Explorer:
         rs = self.run_mode(b, inputs, mode)
         # a time-out in a batch is only a suspicion (the machine may be busy): re-run that input alone
         # with ten times the limit before it is judged
+        # (once three such re-runs have confirmed real hangs, further batch time-outs are taken at face
+        # value: each re-run of a real hang costs 100 s, and the reported representative is confirmed anyway)
         slow = [i for i, r in enumerate(rs) if r.timeout]
-        if slow:
-            again = pmap(lambda i: self.rerun(b, inputs[i], mode, timeout_ms=100000), slow, workers=4)
+        if slow and self.confirmed_hangs < 3:
+            slow = slow[:8]
+            again = pmap(lambda i: self.rerun(b, inputs[i], mode, timeout_ms=100000), slow, workers=8)
             for i, r2 in zip(slow, again):
                 rs[i] = r2
+                if r2.timeout:
+                    self.confirmed_hangs += 1
             self.n_retimed += len(slow)
         out = [(b, r, False) for r in rs]
         if b["flavour"] == "asan":
@@ -236,7 +252,7 @@ class Explorer:
         key = case_key(inp, mode)
         lab = outcome_label(mode, res, v)
         if arith:
-            lab = "unjudged-arith-UB " + lab
+            lab = "unjudged-by-sanitizer " + lab
             self.arith_unjudged += 1
         ck.note(key, nontrivial=nontrivial(res), outcome=lab, family=inp[0],
                 sample={"family": inp[0], "mode": mode, "flavour": b["flavour"], "kind": inp[2],
@@ -258,7 +274,7 @@ class Explorer:
             bk["count"] += 1
             if len(bk["members"]) < 400:
                 bk["members"].append((key, inp, mode, b["flavour"], res.as_dict()))
-        elif flag_rel and (res.mask & (N_WARN | N_EXPANDED)):
+        elif flag_rel and (res.mask & N_SCANNER):
             self.rel_flagged.append(inp)
         return v
 
